@@ -95,7 +95,11 @@ func (m *TlvModel) GenEncodeInto(buf *bytes.Buffer) error {
 
 			{{if .NoCopy}}
 				wireIdx := 0
-				buf := wire[wireIdx]
+				var buf []byte
+				if len(wire) > 0 {
+					// an empty value has an empty wire plan
+					buf = wire[wireIdx]
+				}
 			{{end}}
 
 			pos := uint(0)
